@@ -96,3 +96,61 @@ PROPS["C09"] = dict(
     assumptions=COMMON_ASSUME + [ENC_STATE_INV, "ConstCrc as CRC calculator (a user-supplied calculator that panics is outside the claim)"],
     outside=["lengths above 70000", "buffer contents beyond 32 bytes on the Err path (all writes are after the last error return; checked on the byte tier only)"],
 )
+
+BYTE_TIER = "byte tier: PDU <= 8 bytes, buffer <= 24 bytes (thorough: 16 / 40), every byte value, positions via symbolic indices"
+EXT_SHAPES_Q = ["o2", "m3", "o2_m0", "m3_o0"]
+EXT_SHAPES_T = ["o4_o6", "o0", "o8", "m0", "m8_m2", "o0_o2_o4", "m3_o8_m0", "o2_o4_o6_o8", "m0_o0_m3_m2"]
+EXT_BOUNDS = "chain shape fixed per harness (O(n)=optional with n data bytes, M(n)=mandatory with n data bytes), ids and data symbolic; PDU <= 5, buffer 0..=36 (thorough: 6 / 52), every label/protocol type/sender state"
+
+
+def ext_sender_members(cost=60):
+    hs = [H(f"c13::sender_{s}", bounds=EXT_BOUNDS, unwind=10, cost=cost, timeout=900, mem_gb=8) for s in EXT_SHAPES_Q]
+    hs += [H(f"c13::sender_{s}", tier="thorough", bounds=EXT_BOUNDS, unwind=10, cost=cost, timeout=1800, mem_gb=8) for s in EXT_SHAPES_T]
+    hs += [H("c13::sender_empty_list", bounds="empty extension list; PDU <= 6, buffer <= 48", unwind=8, cost=5)]
+    return hs
+
+
+PROPS["C06"] = dict(
+    claim="Bounded model checking of the bytes written by encap / encap_frag / encap_ext on the compiled code: on the byte tier "
+          "the solver shows, for every PDU/buffer/label/protocol type/context/sender state within the size bound, that the "
+          "output parses under an independent reading of TS 102 606-1 with the right kind bits, label type, GSE length = "
+          "written - 2, field order and values, payload slice, CRC trailer, and that nothing at or beyond the returned length "
+          "is modified; on the lattice tier it shows the length accounting (<= buffer, <= 4097, = header + payload) for all "
+          "lengths 0..=70000.",
+    note="Trusted: Kani/CBMC/CaDiCaL; spec.rs::layout as the reading of the standard. Byte equality for payloads longer than the byte tier is outside the claim (length arithmetic is covered there).",
+    harnesses=[
+        H("c06::encap_bytes", bounds=BYTE_TIER, unwind=8, cost=30, timeout=600),
+        H("c06::encap_frag_bytes", bounds=BYTE_TIER, cost=10, timeout=600),
+        H("c06::encap_lattice", bounds=LATTICE, unwind=8, cost=15),
+        H("c06::encap_frag_lattice", bounds="pdu_len 0..=65535, buffer_len 0..=70000, every ContextFrag", cost=10),
+        T("c06::twin_encap_bytes", cost=8),
+    ] + ext_sender_members() + [
+        H("c14::generate_all_triples", bounds="prerequisite lemma: header encoder for all 4096 lengths", cost=1),
+    ],
+    functions=ENCAP_FNS + ["dvb_gse_rust::gse_encap::Encapsulator::<C>::encap_ext", "dvb_gse_rust::header_extension::Extension::{new,len,id,data}"],
+    assumptions=COMMON_ASSUME + [ENC_STATE_INV, "ConstCrc as CRC calculator (symbolic constant): the CRC *value* is C12's subject",
+                                 "written label computed from the pre-state by the re-use rule (C15 checks the rule itself)"],
+    prereq_note=["C14 header codec lemma (run as part of this check)"],
+    outside=["payload byte equality beyond the byte tier", "extension chains longer than 4 entries or mandatory data longer than 8 bytes",
+             "total length field semantics for packets WITH extensions (the property only fixes it without extensions)"],
+)
+
+PROPS["C15"] = dict(
+    claim="Bounded model checking of one sender step from an ARBITRARY re-use state (activated, max, current, memory) with two ghost "
+          "variables (consecutive substitutions, label of the previous start/complete packet): the solver shows that new() "
+          "establishes and every encap / encap_ext / reset / disable / enable / enable-with-max(n) call preserves the invariant, "
+          "and that every emitted packet obeys the four policy clauses. One inductive step covers call sequences of any length, "
+          "including failing calls and the counter at 255.",
+    note="Trusted: Kani/CBMC/CaDiCaL. The induction (base + step => all histories) is the standard argument, not a solver result. PDU <= 4, buffer <= 24 bound the packets, not the history.",
+    harnesses=[
+        H("c15::base_new", bounds="Encapsulator::new", unwind=8, cost=1),
+        H("c15::step_encap", bounds="arbitrary state + ghosts; any label / protocol type; PDU <= 4; buffer 0..=24 (complete, first fragment, every error)", unwind=8, cost=15),
+        H("c15::step_encap_ext", bounds="same with a one-entry optional extension chain", unwind=10, cost=45, timeout=600),
+        H("c15::step_config", bounds="arbitrary state + ghosts; reset / disable / enable / enable_with_max(n) for every n", unwind=8, cost=2),
+        T("c15::twin_step_encap", cost=5),
+    ],
+    functions=ENCAP_FNS + ["dvb_gse_rust::gse_encap::Encapsulator::<C>::{new,reset_last_label,disable_re_use_label,enable_re_use_label,enable_re_use_label_with_max_consecutive,encap_ext}"],
+    assumptions=COMMON_ASSUME + ["pre-state constrained only by the representation + ghost invariants that the same harnesses show to be inductive",
+                                 "'consecutive re-use packets' counts substituted packets; a configuration call restarts the count (the weaker reading)"],
+    outside=["explicit Label::ReUse passed by the caller is written as such and is not counted as a substitution"],
+)
